@@ -127,6 +127,29 @@ func (c *fctx) checkOrder(n ast.Node) {
 					calls = append(calls, x)
 				}
 			}
+			for _, a := range c.t.writtenArgs(x) { // in-out slice arguments (trans_func.go)
+				if o, _ := c.t.rootObj(a); o != nil {
+					written[o] = true
+					calls = append(calls, x)
+				}
+			}
+			if o := c.t.seqWrites(x); o != nil { // [seq] atomic Store / CompareAndSwap / Add
+				written[o] = true
+				calls = append(calls, x)
+			}
+			for _, o := range c.t.foreignWrites08(x) { // [ext:T08] slice arguments a foreign function writes
+				written[o] = true
+				calls = append(calls, x)
+			}
+			if fn, _ := c.t.calleeOf(x); fn != nil { // [ext:T20] package-level state written by the callee
+				if fi := c.t.funcs[fn]; fi != nil {
+					for g := range fi.gwrites {
+						written[g.obj] = true
+						calls = append(calls, x)
+					}
+				}
+			}
+			c.t.outAssigned15(x, func(o types.Object) { written[o], calls = true, append(calls, x) }) // [ext:T15]
 		}
 		return true
 	})
@@ -154,7 +177,13 @@ func (c *fctx) taintCalls(n ast.Node, en *env) *env {
 	ast.Inspect(n, func(m ast.Node) bool {
 		if x, ok := m.(*ast.CallExpr); ok {
 			if fn, _ := c.t.calleeOf(x); fn != nil {
-				for _, a := range x.Args {
+				for i, a := range x.Args {
+					if fi := c.t.funcs[fn]; fi != nil && i < len(fi.noesc) && fi.noesc[i] {
+						continue // the callee neither keeps nor returns this slice (trans_func.go)
+					}
+					if c.t.notKept15(fn, i) { // [ext:T15] an out-parameter of a callee that can neither return nor store the slice
+						continue
+					}
 					if tv, ok := c.t.info.Types[a]; ok && tv.Type != nil {
 						if _, isSlice := tv.Type.Underlying().(*types.Slice); isSlice {
 							if key, ok := c.aliasSource(a, en); ok && key != "?call" {
@@ -223,9 +252,12 @@ func (c *fctx) preTaint(n ast.Node, en *env) *env {
 
 // assignTo stores val into lhs (variable, field or indexed element of one of those).
 func (c *fctx) assignTo(lhs ast.Expr, val string, en *env, k func() string) string {
+	if s, ok := c.seqAssign(lhs, val, en, k); ok { // [seq] h.f = v, s[i].f = v
+		return s
+	}
 	if ix, ok := ast.Unparen(lhs).(*ast.IndexExpr); ok {
-		if c.t.exprType(ix.X).k != kSlice {
-			c.t.fail(lhs, "indexed assignment to a non-slice")
+		if g := c.t.exprType(ix.X); g.k != kSlice || g.elem != nil {
+			c.t.fail(lhs, "indexed assignment to a non-slice (or of a whole struct element)")
 		}
 		c.t.exprType(ix)
 		key := c.sliceKey(ix.X, en)
@@ -233,10 +265,11 @@ func (c *fctx) assignTo(lhs ast.Expr, val string, en *env, k func() string) stri
 		return c.expr(ix.X, en, func(b string) string {
 			return c.expr(ix.Index, en, func(i string) string {
 				v := c.fresh("s")
-				return fmt.Sprintf("do %s <- m_set %s %s %s;;\n%s", v, b, i, val, c.store(ix.X, v, en, k))
+				return fmt.Sprintf("do %s <- %s %s %s %s;;\n%s", v, setFn08(c.t.exprType(ix.X)), b, i, val, c.store(ix.X, v, en, k)) // [ext:T08] m_setA on [][]byte
 			})
 		})
 	}
+	c.seqWholeSliceStore(lhs, en) // [seq] no pointer into the slice may be live
 	return c.store(lhs, val, en, k)
 }
 
@@ -315,10 +348,18 @@ func (c *fctx) stmt(s ast.Stmt, en *env, lc *lctx, next kont) string {
 				t.fail(s, "pointer variable %s", it.id.Name)
 			}
 			if it.val == nil {
+				c.noZero08(g, it.id) // [ext:T08]
+				if noZero(g) {
+					t.fail(s, "zero value of %s, which contains a function (nil functions are not modelled)", it.id.Name)
+				}
 				en2, name := c.declare(en, obj, g)
 				return fmt.Sprintf("let %s := %s in\n%s", name, g.zero(), rec(i+1, en2))
 			}
 			c.checkOrder(it.val)
+			if g.k == kErr { // [ext:T20] var err error = nil
+				c.markNilAs20(it.val)
+			}
+			c.refuseNilOpaque08(g, it.val) // [ext:T08]
 			return c.expr(it.val, en, func(v string) string {
 				en2, name := c.declare(c.taintCalls(it.val, en), obj, g)
 				en2 = c.noteAlias(it.id, it.val, en2)
@@ -351,6 +392,12 @@ func (c *fctx) stmt(s ast.Stmt, en *env, lc *lctx, next kont) string {
 		}
 		c.inRet++ // [BitsCode] struct literals in a return operand may hold named slices
 		defer func() { c.inRet-- }()
+		for i, r := range x.Results { // [ext:T20] `return v, nil` in a function with an error result
+			if c.fi.results[i].k == kErr {
+				c.markNilAs20(r)
+			}
+			c.refuseNilOpaque08(c.fi.results[i], r) // [ext:T08]
+		}
 		return c.args(x.Results, en, func(vs []string) string { return lc.ret(c.retTerm(en, vs)) })
 	case *ast.BranchStmt:
 		if x.Label != nil {
@@ -369,6 +416,8 @@ func (c *fctx) stmt(s ast.Stmt, en *env, lc *lctx, next kont) string {
 		t.fail(s, "%s here", x.Tok)
 	case *ast.IfStmt:
 		return c.ifStmt(x, en, lc, next)
+	case *ast.SwitchStmt: // [seq] tagless switch -> if / else-if chain
+		return c.switch15(x, en, lc, next) // [ext:T15] a tag becomes `tag == e` conditions, then c.switchStmt
 	case *ast.ForStmt:
 		return c.forStmt(x, en, lc, next)
 	case *ast.RangeStmt:
@@ -380,19 +429,41 @@ func (c *fctx) stmt(s ast.Stmt, en *env, lc *lctx, next kont) string {
 
 // retTerm: the value a `return vs` produces: the results, preceded by the receiver when the method writes it.
 func (c *fctx) retTerm(en *env, vs []string) string {
-	if c.fi.recv != nil && c.fi.writes {
-		r := en.lookup(c.fi.recv).name
-		if len(vs) == 0 {
-			return r
+	if io := c.inoutParams(en); len(io) > 0 { // receiver, in-out slices, results (trans_func.go)
+		var pre []string
+		if c.fi.recv != nil && c.fi.writes {
+			pre = append(pre, en.lookup(c.fi.recv).name)
 		}
-		return "(" + r + ", " + tuple(vs) + ")"
+		pre = append(pre, io...)
+		if len(vs) > 0 {
+			pre = append(pre, tuple(vs))
+		}
+		return tuple(pre)
 	}
-	return tuple(vs)
+	var parts []string
+	if c.fi.recv != nil && c.fi.writes {
+		parts = append(parts, en.lookup(c.fi.recv).name)
+	}
+	for _, g := range c.t.ordered20(c.fi.gwrites) { // [ext:T20] written package-level state is returned
+		parts = append(parts, c.globalName20(g, en, c.fi.decl))
+	}
+	parts = append(parts, c.outNames08(en)...) // [ext:T08] output parameters
+	parts = append(parts, c.outNames15(en)...) // [ext:T15] slice parameters written in place are returned
+	if len(parts) == 0 {
+		return tuple(vs)
+	}
+	if len(vs) > 0 {
+		parts = append(parts, tuple(vs))
+	}
+	return nestPair(parts)
 }
 
 func (c *fctx) assign(x *ast.AssignStmt, en *env, next kont) string {
 	t := c.t
 	c.checkOrder(x)
+	if s, ok := c.placeDefine(x, en, next); ok { // [seq] h := &s[i]
+		return s
+	}
 	if x.Tok != token.ASSIGN && x.Tok != token.DEFINE { // x op= e
 		ops := map[token.Token]token.Token{token.ADD_ASSIGN: token.ADD, token.SUB_ASSIGN: token.SUB, token.MUL_ASSIGN: token.MUL,
 			token.QUO_ASSIGN: token.QUO, token.REM_ASSIGN: token.REM, token.AND_ASSIGN: token.AND, token.OR_ASSIGN: token.OR,
@@ -443,7 +514,7 @@ func (c *fctx) assign(x *ast.AssignStmt, en *env, next kont) string {
 			en3 := en2
 			if rhs != nil {
 				en3 = c.noteAlias(lhs, rhs[i], en2)
-			} else if k := c.sliceKey(lhs, en2); k != "" && t.exprType(lhs).k == kSlice {
+			} else if k := c.sliceKey(lhs, en2); k != "" && c.lhsType08(lhs, en2).k == kSlice { // [ext:T08] `a, err := f()` with err redeclared: no entry in info.Types
 				en3 = en2.share(k)
 			}
 			return c.assignTo(lhs, vs[i], en2, func() string { return rec(i+1, en3) })
@@ -459,6 +530,12 @@ func (c *fctx) assign(x *ast.AssignStmt, en *env, next kont) string {
 	}
 	if len(x.Rhs) != len(x.Lhs) {
 		t.fail(x, "assignment")
+	}
+	for i := range x.Lhs { // [ext:T20] err = nil
+		if x.Tok == token.ASSIGN {
+			c.markNil20(x.Rhs[i], x.Lhs[i])
+			c.refuseNilAssign08(x.Lhs[i], x.Rhs[i], en) // [ext:T08]
+		}
 	}
 	if len(x.Lhs) > 1 {
 		// tuple assignment: every right-hand side is evaluated before any store; bind them to temporaries
@@ -559,6 +636,10 @@ func (c *fctx) forStmt(x *ast.ForStmt, en *env, lc *lctx, next kont) string {
 		if x.Cond != nil {
 			c.checkOrder(x.Cond)
 			c.t.assigned(x.Cond, set)
+			// the loop combinator's condition is S -> M bool: an assignment made while evaluating it would be lost
+			if len(set) > 0 {
+				c.t.fail(x.Cond, "loop condition that assigns a variable (a call of a method that writes its receiver, an atomic store)")
+			}
 		}
 		c.t.assigned(x.Body, set)
 		if x.Post != nil {
@@ -611,8 +692,19 @@ func (c *fctx) rangeStmt(x *ast.RangeStmt, en *env, lc *lctx, next kont) string 
 		overInt = true
 	} else if t.exprType(x.X).k != kSlice {
 		t.fail(x, "range over %s", tv.Type)
+	} else if t.exprType(x.X).str && !(x.Value == nil && c.asciiConst20(x.X)) { // [ext:T20] ranging over a string decodes runes
+		t.fail(x, "range over a string (only the index form over a constant ASCII string is supported)")
+	}
+	arrLen := int64(-1) // [ext:T20] ranging over an array: the bound is the array length of the type
+	if !overInt {
+		if g := t.exprType(x.X); g.isArr {
+			arrLen = g.arr
+		}
 	}
 	if x.Value != nil && !overInt {
+		if id, ok := x.Value.(*ast.Ident); (!ok || id.Name != "_") && t.exprType(x.X).elem != nil { // [seq]
+			t.fail(x, "range with a value variable over a slice of structs")
+		}
 		set := map[types.Object]bool{}
 		t.assigned(x.Body, set)
 		if o, _ := t.rootObj(x.X); o != nil && set[o] {
@@ -622,9 +714,15 @@ func (c *fctx) rangeStmt(x *ast.RangeStmt, en *env, lc *lctx, next kont) string 
 	c.checkOrder(x.X)
 	return c.expr(x.X, en, func(xs string) string {
 		rng, n, idx := c.fresh("rng"), c.fresh("n"), c.fresh("i")
-		head := fmt.Sprintf("let %s := %s in\nlet %s := zlen %s in\n", rng, xs, n, rng)
+		head := ""
+		if !overInt {
+			head = fmt.Sprintf("let %s := %s in\nlet %s := %s %s in\n", rng, xs, n, lenFn(t.exprType(x.X)), rng) // [seq] zlenA
+		}
 		if overInt {
 			head = fmt.Sprintf("let %s := %s in\n", n, xs)
+		}
+		if arrLen >= 0 { // [ext:T20]
+			head = fmt.Sprintf("let %s := %s in\nlet %s := %d in\n", rng, xs, n, arrLen)
 		}
 		set := map[types.Object]bool{}
 		t.assigned(x.Body, set)
@@ -672,7 +770,7 @@ func (c *fctx) rangeStmt(x *ast.RangeStmt, en *env, lc *lctx, next kont) string 
 					return rest()
 				}
 				ev := c.fresh("v")
-				return fmt.Sprintf("do %s <- m_get %s %s;;\n%s", ev, rng, idx, bindVar(x.Value, ev, rest))
+				return fmt.Sprintf("do %s <- %s %s %s;;\n%s", ev, getFn08(t.exprType(x.X)), rng, idx, bindVar(x.Value, ev, rest)) // [ext:T08]
 			}))
 			return b.String()
 		}
@@ -691,11 +789,21 @@ func (t *Translator) emitFunc(fi *funcInfo) string {
 	if fi.loops {
 		params = append(params, "(fuel : nat)")
 	}
+	params = append(params, t.extParam08(fi)...) // [ext:T08] ext' : Foreign
+	t.checkHandles08(fi)                         // [ext:T08]
 	sig := fi.obj.Type().(*types.Signature)
 	if fi.recv != nil {
 		var name string
 		en, name = c.declare(en, fi.recv, fi.recvT)
 		params = append(params, fmt.Sprintf("(%s : %s)", name, fi.recvT.coq()))
+	}
+	for _, g := range t.ordered20(fi.greads) { // [ext:T20] package-level state the function (transitively) touches
+		var name string
+		en, name = c.declare(en, g.obj, g.ty)
+		params = append(params, fmt.Sprintf("(%s : %s)", name, g.ty.coq()))
+	}
+	if fi.frag != nil {
+		return t.emitFrag20(c, fi, en, params)
 	}
 	for i := 0; i < sig.Params().Len(); i++ {
 		p := sig.Params().At(i)
@@ -703,7 +811,7 @@ func (t *Translator) emitFunc(fi *funcInfo) string {
 		var name string
 		en, name = c.declare(en, p, g)
 		params = append(params, fmt.Sprintf("(%s : %s)", name, g.coq()))
-		if g.k == kSlice {
+		if g.k == kSlice && !(i < len(fi.noesc) && fi.noesc[i]) && !fi.isOut08(i) && !fi.isOut15(i) { // [func] noesc; [ext:T08] not an output parameter; [ext:T15] written in place: returned instead
 			en = en.share(name) // the caller still holds the array
 		}
 	}
@@ -712,12 +820,35 @@ func (t *Translator) emitFunc(fi *funcInfo) string {
 		rts = append(rts, g.coq())
 	}
 	rt := tupleType(rts)
-	if fi.recv != nil && fi.writes {
-		if len(rts) == 0 {
-			rt = fi.recvT.coq()
-		} else {
-			rt = "(" + fi.recvT.coq() + " * " + rt + ")"
+	var stateT []string
+	if ioT := t.inoutTypes(fi); len(ioT) > 0 { // receiver, in-out slices, results (trans_func.go)
+		var pre []string
+		if fi.recv != nil && fi.writes {
+			pre = append(pre, fi.recvT.coq())
 		}
+		pre = append(pre, ioT...)
+		if len(rts) > 0 {
+			pre = append(pre, rt)
+		}
+		rt = tupleType(pre)
+	} else {
+		if fi.recv != nil && fi.writes {
+			stateT = append(stateT, fi.recvT.coq())
+		}
+		for _, g := range t.ordered20(fi.gwrites) { // [ext:T20]
+			stateT = append(stateT, g.ty.coq())
+		}
+	}
+	stateT = append(stateT, t.outTypes08(fi)...) // [ext:T08] output parameters
+	for range fi.outs15 {                        // [ext:T15]
+		stateT = append(stateT, "list Z")
+	}
+	t.checkOuts15(fi) // [ext:T15]
+	if len(stateT) > 0 {
+		if len(rts) > 0 {
+			stateT = append(stateT, rt)
+		}
+		rt = nestPairType(stateT)
 	}
 	if strings.Contains(rt, " ") && !strings.HasPrefix(rt, "(") {
 		rt = "(" + rt + ")"
@@ -729,12 +860,19 @@ func (t *Translator) emitFunc(fi *funcInfo) string {
 		prefix += fmt.Sprintf("let %s := %s in\n", name, fi.results[i].zero())
 	}
 	lc := &lctx{ret: func(v string) string { return "Ret " + v }}
-	body := prefix + c.stmts(fi.decl.Body.List, en, lc, kont{f: func(e *env) string {
+	list, timed := t.bodyList(fi) // [seq] a timed tail becomes the parameter rest'timed
+	body := prefix + c.stmts(list, en, lc, kont{f: func(e *env) string {
+		if timed {
+			return c.tailCall(e, rt)
+		}
 		if len(fi.results) > 0 {
 			t.fail(fi.decl, "control reaches the end of %s, which has results", fi.goName)
 		}
 		return lc.ret(c.retTerm(e, nil))
 	}, cheap: true})
+	if c.tailParam != "" {
+		params = append(params, c.tailParam)
+	}
 	return fmt.Sprintf("(* func %s   (%s) *)\nDefinition %s %s : M %s :=\n%s.\n", fi.goName, t.pos(fi.decl),
 		fi.name, strings.Join(params, " "), rt, strings.TrimRight(indentCoq(body), "\n"))
 }
